@@ -66,7 +66,8 @@ def return_tags(ctx: Context, callee: FunctionInfo, call: ast.Call,
 
 
 _ACTIVE: dict[str, frozenset] = {}
-CONTENT_READS = {"read_text", "read_bytes", "read", "readline", "readlines"}
+CONTENT_READS = {"read_text", "read_bytes", "read", "readline", "readlines",
+                 "readinto", "hexdigest", "digest"}
 
 
 def make_hook(ctx: Context, fn: FunctionInfo, depth: int = 0):
@@ -83,6 +84,8 @@ def make_hook(ctx: Context, fn: FunctionInfo, depth: int = 0):
                 return frozenset({"absolute"})
             if isinstance(f, ast.Attribute) and f.attr in CONTENT_READS:
                 return EMPTY  # the content of a file is not its path
+            if ctx.is_call(fn, e, "utils.hash_checksums"):
+                return EMPTY  # digests are derived from content only
             targets = [t for t in ctx.internal_targets(fn, e)
                        if not isinstance(t.node, ast.Lambda) and
                        t.name != "__init__"]
@@ -255,8 +258,23 @@ def run(ctx: Context, rep) -> None:
            message="no description is returned without passing the gate")
     mv = [c for c in load.calls() if isinstance(c.func, ast.Attribute) and
           c.func.attr == "model_validate_json"]
-    rep.ob("C20.gate", len(mv) == 1 and "_get_config_path(path)" in
-           canon(load, mv[0]) and ".read_text(" in canon(load, mv[0]) and
+    p0 = load.params()[0]
+
+    def names_the_param(mvc) -> bool:
+        # _get_config_path(<p> | Path(<p>)) of the function's own parameter
+        for c in ast.walk(ast.parse(canon(load, mvc), mode="eval")):
+            if isinstance(c, ast.Call) and (dotted(c.func) or "").endswith(
+                    "_get_config_path") and c.args:
+                a = c.args[0]
+                while isinstance(a, ast.Call) and (dotted(a.func) or "") in (
+                        "Path", "pathlib.Path") and len(a.args) == 1:
+                    a = a.args[0]
+                if isinstance(a, ast.Name) and a.id == p0:
+                    return True
+        return False
+
+    rep.ob("C20.gate", len(mv) == 1 and names_the_param(mv[0]) and
+           ".read_text(" in canon(load, mv[0]) and
            "DatasetInfo" in ast.unparse(mv[0].func),
            loc=load.loc(), where=load.qualname,
            construct=short(mv[0], 100) if mv else "<none>",
